@@ -4,9 +4,12 @@ import random
 
 EQU_SRCS = ['dgsequ.c', 'dlaqgs.c']
 
-def equ_query(pid, m, n, pat, group, timeout=300):
-    return Query('%s.equ.m%dn%d.p%x.g%d' % (pid, m, n, pat, group), 'equ_h.c', EQU_SRCS,
-                 defs={'M': m, 'N': n, 'PAT': hex(pat), 'GROUP': group}, engine='smt', mode='real', unwind=40, timeout=timeout,
+def equ_query(pid, m, n, pat, group, timeout=300, single=False):
+    defs = {'M': m, 'N': n, 'PAT': hex(pat), 'GROUP': group}
+    if single:
+        defs['VH_SINGLE'] = None
+    return Query('%s.equ.%sm%dn%d.p%x.g%d' % (pid, 's.' if single else '', m, n, pat, group), 'equ_h.c', ['sgsequ.c', 'slaqgs.c'] if single else EQU_SRCS,
+                 defs=defs, engine='smt', mode='real', unwind=40, timeout=timeout,
                  group='dgsequ/dlaqgs %dx%d group %d' % (m, n, group))
 
 def plan(tier, seed, pid='C11'):
@@ -16,6 +19,10 @@ def plan(tier, seed, pid='C11'):
         for pat in range(1 << (m * n)):
             for g in (1, 2):
                 qs.append(equ_query(pid, m, n, pat, g))
+    # single precision: same routines with the float machine constants
+    for pat in (1, 0xf, 0x9, 0x6, 0x7):
+        for g in (1, 2):
+            qs.append(equ_query(pid, 2 if pat > 1 else 1, 2 if pat > 1 else 1, pat, g, single=True))
     if tier == 'thorough':
         for pat in range(512):
             for g in (1, 2):
@@ -31,7 +38,7 @@ META = {
     'level': 'model_checking',
     'engines': 'E2: cbmc symex of the real dgsequ/dlaqgs -> SMT-LIB -> fp2alg Real -> z3 5.1',
     'bounds': {'matrices': 'every m x n pattern with m,n<=2 (incl. empty rows/columns, 1x1); 3x3: quick 12 sampled patterns with <= 5 entries, thorough all 512 for the apply step and all with <= 6 entries for the scale-factor group (denser ones did not finish within the cap on the unchanged tree)',
-               'values': 'all reals; safe minimum / precision are the exact IEEE double constants'},
+               'values': 'all reals; safe minimum / precision are the exact IEEE double constants (float constants for the single-precision queries)', 'precisions': 'd; s on five 1x1/2x2 patterns'},
     'outside': ['finiteness / overflow of products near the clipping bounds (IEEE range)', 'complex |z| = |re|+|im| variants', 'the driver part (which of R/C scales B and X): C07'],
     'assumptions': ['floating point reinterpreted as the ordered field of reals; dlamch_ replaced by exact constants'],
     'trusted_base': ['cbmc 6.11', 'tools/fp2alg.py', 'z3 5.1.0'],
